@@ -21,10 +21,23 @@ Clauses(r) ==
        <<"ops_script", ValidScript(r.a, r.b, r.ops, r.swap, r.sid)>>
     >>
 
+\* a text of tens of thousands of characters against a very short one (lengths and distances beyond 16 bits): the clauses
+\* that are linear in the long side (the distance is symmetric; the script is checked by its length only)
+LongClauses(r) ==
+    LET D == Dist(r.a, r.b, r.swap, r.sid)
+    IN <<
+       <<"distance", r.d = D>>,
+       <<"distances", r.ds = <<D, D>> >>,
+       \* to three decimals (TLC integers are 32-bit: the exact comparison multiplies by 10^6)
+       <<"norm_value", r.nd.t = "num" /\ (LET q == (D * 1000) \div NormDen(r.a, r.b) IN (r.nd.v \div 1000) \in {q - 1, q, q + 1})>>,
+       <<"prefix", r.pd = PrefixDist(r.a, r.b, r.swap, r.sid)>>,
+       <<"ops_len", Len(r.ops) = D>>
+    >>
+
 Judge(r) ==
     IF r.st # "ok"
     THEN [why |-> <<r.st>>, drift |-> <<>>, skip |-> FALSE, nt |-> FALSE]
-    ELSE LET cl == Clauses(r)
+    ELSE LET cl == IF Len(r.a) > 5000 THEN LongClauses(r) ELSE Clauses(r)
              bad == SelectSeq(cl, LAMBDA x : ~x[2])
          IN [why |-> [k \in 1..Len(bad) |-> bad[k][1]],
              drift |-> <<>>,
